@@ -70,22 +70,23 @@ func (l *KUAndEKUInconsistent) multiPurpose(c *x509.Certificate) *lint.LintResul
 	// included extKeyUsage(es).
 	var mp = map[x509.KeyUsage]bool{}
 	for _, extKeyUsage := range c.ExtKeyUsage {
-		var i int
 		if _, ok := eku[extKeyUsage]; !ok {
 			return &lint.LintResult{Status: lint.Pass}
 		}
+		// The combinations authorized by the EKUs seen so far. Merging against this
+		// snapshot (and not against the map being filled) keeps the result
+		// independent of map iteration order.
+		previous := make([]x509.KeyUsage, 0, len(mp))
+		for mpku := range mp {
+			previous = append(previous, mpku)
+		}
 		for ku := range eku[extKeyUsage] {
-			// There is nothing to merge for the first EKU.
-			if i > 0 {
-				// We could see this EKU combined with any other EKU so
-				// create that possibility.
-				for mpku := range mp {
-					mp[mpku|ku] = true
-				}
+			// We could see this EKU combined with any other EKU so
+			// create that possibility.
+			for _, mpku := range previous {
+				mp[mpku|ku] = true
 			}
-
 			mp[ku] = true
-			i++
 		}
 	}
 	if !mp[c.KeyUsage] {
